@@ -296,6 +296,9 @@ class Eval:
                     raise Inconclusive("PW: a diagonal entry is read while the generic pair is off the diagonal")
                 return a_
             return a_ if tuple(idx[1]) == (("$i",), ("$j",)) else b_
+        if isinstance(base, M) and idx[0] not in ("tuple", "slice") and (self.node_of(idx) is not None or self.is_subset(idx)):
+            # X[i] / X[S] of a matrix: a missing trailing index is a full slice
+            return self.t_sub(("sub", base_t, ("tuple", (idx, FULL))))
         if isinstance(base, M) and idx[0] == "tuple" and len(idx[1]) == 2:
             r, c = idx[1]
             if c == FULL and self.node_of(r) is not None:
